@@ -1,7 +1,7 @@
 """Which properties are claimed in MANIFEST.json, with the words that go there."""
 TB = ("Trusted: Coq kernel (coqc, full .vo), no axioms (Print Assumptions = closed for every theorem); the hand-written model "
       "is tied to the code by the correspondence check (harness + extracted model on the same cases), so assurance is "
-      "bounded by that check's generators, and - for 103 functions: the loop-free integer/decision kernel, the pointer-level iterator state machines of iter_mut.rs with their constructors and public entry points, the raw-pointer swaps, the row/column view helpers, transpose with its loop and the order changes, and the constructors of construct.rs - by the rs2v translator "
+      "bounded by that check's generators, and - for 111 functions: the loop-free integer/decision kernel, the pointer-level iterator state machines of iter_mut.rs with their constructors and public entry points, the raw-pointer swaps, the row/column view helpers, transpose with its loop and the order changes, and the constructors of construct.rs - by the rs2v translator "
       "(regenerated from the source on every run, each proved equal to the model's kernel function; translator trusted); "
       "extraction with ExtrOcamlBasic; std/Vec/ptr semantics are modelled, not verified.")
 CLAIMED = {
